@@ -46,7 +46,12 @@ Inductive dom :=
     [VSome]/[VNone]: [Option<T>] (= [Either<T, ()>]). [VLeft]/[VRight]: [Either] / [EitherOf*].
     [VVec]: [Vec<T>]. [VAny]: [AnyView], [Box<dyn ..>] and reactive closures [move || v] — all
     three forward [to_html] and [hydrate] unchanged. Second stage: [VKeyed] (keyed lists / <For>),
-    [VInert] ([InertElement], a static subtree given by its DOM). *)
+    [VInert] ([InertElement], a static subtree given by its DOM); [VRaw n a parts]: an element with
+    [ESCAPE_CHILDREN = false] (textarea, style, script) whose children are strings ([Some s]) or
+    render to nothing ([None]: [()], [None], an empty [Vec]) — its children are printed without
+    separators, placeholders or markers and are not hydrated; [VSuspend v]: [Suspend] over a future
+    that is resolved when the view is rendered / hydrated (tachys/src/reactive_graph/suspense.rs:
+    [now_or_never] yields the value, which is rendered / hydrated in place). *)
 Inductive view :=
 | VText (s : bytes)
 | VUnit
@@ -60,7 +65,9 @@ Inductive view :=
 | VVec (vs : list view)
 | VAny (v : view)
 | VKeyed (vs : list view)
-| VInert (e : dom).
+| VInert (e : dom)
+| VRaw (name : bytes) (attrs : list attr) (parts : list (option bytes))
+| VSuspend (v : view).
 
 (** * Server-side printer *)
 
@@ -98,6 +105,9 @@ Definition s_div : bytes := [100; 105; 118].
 Definition s_section : bytes := [115; 101; 99; 116; 105; 111; 110].
 Definition s_ul : bytes := [117; 108].
 Definition s_main : bytes := [109; 97; 105; 110].
+Definition s_textarea : bytes := [116; 101; 120; 116; 97; 114; 101; 97].
+Definition s_style : bytes := [115; 116; 121; 108; 101].
+Definition s_script : bytes := [115; 99; 114; 105; 112; 116].
 
 Fixpoint bytes_eqb (a b : bytes) : bool :=
   match a, b with
@@ -109,6 +119,18 @@ Definition mem (n : bytes) (l : list bytes) : bool := existsb (bytes_eqb n) l.
 
 Definition is_void (n : bytes) : bool := mem n [s_br; s_hr; s_img; s_input].
 
+(** elements whose content the tokenizer reads as text: [Some true] = RCDATA (textarea: character
+    references are decoded), [Some false] = RAWTEXT / script data (style, script) *)
+Definition raw_kind (n : bytes) : option bool :=
+  if bytes_eqb n s_textarea then Some true
+  else if mem n [s_style; s_script] then Some false
+  else None.
+Definition raw_content (parts : list (option bytes)) : bytes :=
+  flat_map (fun p => match p with Some s => s | None => [] end) parts.
+(** html/element/mod.rs: the children of a textarea are rendered unescaped and escaped as a whole *)
+Definition raw_html (n : bytes) (content : bytes) : bytes :=
+  match raw_kind n with Some true => esc_text content | _ => content end.
+
 (** serialisation of a DOM forest the way tachys prints the corresponding pieces (and the
     way the [view!] macro writes an inert subtree) *)
 Fixpoint ser (d : dom) : bytes :=
@@ -118,8 +140,13 @@ Fixpoint ser (d : dom) : bytes :=
   | DElem n a ks =>
       open_tag n a ++
       (if is_void n then []
-       else (fix go (l : list dom) : bytes :=
-               match l with [] => [] | k :: l => ser k ++ go l end) ks ++ close_tag n)
+       else match raw_kind n with
+            | Some false =>
+                (fix raw (l : list dom) : bytes :=
+                   match l with DText s :: l => s ++ raw l | _ :: l => raw l | [] => [] end) ks ++ close_tag n
+            | _ => (fix go (l : list dom) : bytes :=
+                      match l with [] => [] | k :: l => ser k ++ go l end) ks ++ close_tag n
+            end)
   end.
 Fixpoint ser_forest (l : list dom) : bytes :=
   match l with [] => [] | k :: l => ser k ++ ser_forest l end.
@@ -145,12 +172,13 @@ Fixpoint to_html (v : view) (pos : Position) {struct v} : bytes * Position :=
        NextChild)
   | VVoid n a => (open_tag n a, NextChild)
   | VTuple vs => seq vs pos
-  | VSome v | VLeft v | VRight v | VAny v => to_html v pos
+  | VSome v | VLeft v | VRight v | VAny v | VSuspend v => to_html v pos
   | VVec vs =>                                       (* view/iterators.rs *)
       let '(b, _) := seq vs pos in (b ++ marker, NextChild)
   | VKeyed vs =>                                     (* view/keyed.rs, after the fix for F-C05-b: as Vec *)
       let '(b, _) := seq vs pos in (b ++ marker, NextChild)
   | VInert e => (ser e, NextChild)                   (* html/mod.rs InertElement *)
+  | VRaw n a parts => (open_tag n a ++ raw_html n (raw_content parts) ++ close_tag n, NextChild)
   end.
 
 Fixpoint html_seq (l : list view) (pos : Position) : bytes * Position :=
@@ -183,10 +211,12 @@ Fixpoint dom_of (v : view) (pos : Position) {struct v} : list dom * Position :=
       ([DElem n a (match ks with [] => [] | _ => fst (seq ks FirstChild) end)], NextChild)
   | VVoid n a => ([DElem n a []], NextChild)
   | VTuple vs => seq vs pos
-  | VSome v | VLeft v | VRight v | VAny v => dom_of v pos
+  | VSome v | VLeft v | VRight v | VAny v | VSuspend v => dom_of v pos
   | VVec vs => let '(b, _) := seq vs pos in (b ++ [sep], NextChild)
   | VKeyed vs => let '(b, _) := seq vs pos in (b ++ [sep], NextChild)
   | VInert e => ([e], NextChild)
+  | VRaw n a parts =>
+      ([DElem n a (match raw_content parts with [] => [] | c => [DText c] end)], NextChild)
   end.
 
 Fixpoint dom_seq (l : list view) (pos : Position) : list dom * Position :=
@@ -239,6 +269,11 @@ Inductive tmode :=
 | MCharRefAttr (tg : tagacc) (an av buf : bytes)           (* 13.2.5.72/73 from an attribute value *)
 | MAfterAttrValQ (tg : tagacc)                             (* 13.2.5.39 *)
 | MMarkupDecl                                              (* 13.2.5.42 -> bogus comment 13.2.5.41 *)
+| MRaw (n : bytes) (rc : bool)                             (* 13.2.5.2 RCDATA / 13.2.5.3 RAWTEXT / 13.2.5.4 script data *)
+| MRawRef (n : bytes) (buf : bytes)                        (* character reference in RCDATA *)
+| MRawLt (n : bytes) (rc : bool)                           (* 13.2.5.9 / .12 / .15 less-than sign *)
+| MRawEndOpen (n : bytes) (rc : bool)                      (* 13.2.5.10 / .13 / .16 end tag open *)
+| MRawEndName (n : bytes) (rc : bool) (buf : bytes)        (* 13.2.5.11 / .14 / .17 end tag name *)
 | MErr.                                                    (* outside the modelled subset *)
 
 Definition tstate := (tmode * list token)%type.            (* output tokens reversed *)
@@ -269,8 +304,19 @@ Definition add_attr (tg : tagacc) (an av : bytes) : tagacc :=
   if existsb (fun a => bytes_eqb name (fst a)) (t_attrs tg) then tg
   else {| t_end := t_end tg; t_name := t_name tg; t_attrs := (name, rev av) :: t_attrs tg |}.
 
+(** emitting a start tag of textarea / style / script switches the tokenizer (the tree
+    construction stage does that for these names in the "in body" mode) *)
 Definition emit_tag (tg : tagacc) (out : list token) : tstate :=
-  (MData, (if t_end tg then TEnd (t_name tg) else TStart (t_name tg) (rev (t_attrs tg))) :: out).
+  if t_end tg then (MData, TEnd (t_name tg) :: out)
+  else (match raw_kind (t_name tg) with Some rc => MRaw (t_name tg) rc | None => MData end,
+        TStart (t_name tg) (rev (t_attrs tg)) :: out).
+
+(** a character of raw text; a '<' may start the end tag *)
+Definition step_raw (n : bytes) (rc : bool) (out : list token) (c : N) : tstate :=
+  if c =? 60 then (MRawLt n rc, out)
+  else if rc && (c =? 38) then (MRawRef n [], out)
+  else (MRaw n rc, TChar c :: out).
+Definition chars_rev (l : bytes) (out : list token) : list token := map TChar l ++ out.
 
 Definition step_attr_name (tg : tagacc) (an : bytes) (out : list token) (c : N) : tstate :=
   if is_ws c then (MAfterAttrName tg an, out)
@@ -340,6 +386,26 @@ Definition step (st : tstate) (c : N) : tstate :=
       else (MErr, out)
   | MMarkupDecl =>
       if c =? 62 then (MData, TComment [] :: out) else (MErr, out)
+  | MRaw n rc => step_raw n rc out c
+  | MRawRef n buf =>
+      match ref_lookup (rev (c :: buf)) with
+      | RMatch ch => (MRaw n true, TChar ch :: out)
+      | RMore => (MRawRef n (c :: buf), out)
+      | RNone => (MErr, out)
+      end
+  | MRawLt n rc =>
+      if c =? 47 then (MRawEndOpen n rc, out)
+      else if (c =? 33) && negb rc then (MErr, out)        (* script data escape states: not modelled *)
+      else step_raw n rc (TChar 60 :: out) c
+  | MRawEndOpen n rc =>
+      if is_alpha c then (MRawEndName n rc [c], out)
+      else step_raw n rc (TChar 47 :: TChar 60 :: out) c
+  | MRawEndName n rc buf =>
+      if is_alpha c then (MRawEndName n rc (c :: buf), out)
+      else if bytes_eqb (map lower (rev buf)) n then
+        (* an appropriate end tag token *)
+        if c =? 62 then (MData, TEnd n :: out) else (MErr, out)
+      else step_raw n rc (chars_rev buf (TChar 47 :: TChar 60 :: out)) c
   | MErr => (MErr, out)
   end.
 
@@ -428,17 +494,30 @@ Definition append_char (c : N) (st : list frame) : list frame :=
       end
   end.
 
+Definition first_in_textarea (st : list frame) : bool :=
+  match st with
+  | fr :: _ => bytes_eqb (f_name fr) s_textarea && match f_kids fr with [] => true | _ => false end
+  | [] => false
+  end.
+
 (** one tree-construction step; [None] = a tag outside the modelled subset *)
 Definition bstep (st : option (list frame)) (t : token) : option (list frame) :=
   match st with
   | None => None
   | Some st =>
       match t with
-      | TChar c => if c =? 0 then Some st else Some (append_char c st)
+      | TChar c =>
+          if c =? 0 then Some st
+          else if (c =? 10) && first_in_textarea st then Some st    (* a newline right after <textarea> is dropped *)
+          else Some (append_char c st)
       | TComment d => Some (add_kid (DComment d) st)
       | TStart n a =>
           match kind_of n with
-          | None => None
+          | None =>
+              match raw_kind n with
+              | Some _ => Some ({| f_name := n; f_attrs := a; f_kids := [] |} :: st)
+              | None => None
+              end
           | Some k =>
               let st1 := if closes_p k && has_open s_p st then pop_until s_p st (length st) else st in
               if kind_void k then Some (add_kid (DElem n a []) st1)
@@ -446,7 +525,11 @@ Definition bstep (st : option (list frame)) (t : token) : option (list frame) :=
           end
       | TEnd n =>
           match kind_of n with
-          | None => None
+          | None =>
+              match raw_kind n, st with
+              | Some _, fr :: _ :: _ => if bytes_eqb n (f_name fr) then Some (pop1 st) else None
+              | _, _ => None
+              end
           | Some KPara =>
               if has_open s_p st then Some (pop_until s_p st (length st))
               else Some (add_kid (DElem s_p [] []) st)
@@ -524,7 +607,8 @@ Inductive stree :=
 | SVec (l : list stree) (m : path)
 | SAny (s : stree)
 | SKeyed (parent : path) (l : list stree) (m : path)
-| SInert (n : path).
+| SInert (n : path)
+| SSusp (s : stree).
 
 Definition is_text (d : option dom) : bool := match d with Some (DText _) => true | _ => false end.
 Definition is_comment (d : option dom) : bool := match d with Some (DComment _) => true | _ => false end.
@@ -601,6 +685,8 @@ Fixpoint hydrate (root : dom) (v : view) (h : hstate) {struct v} : option (stree
       match hydrate root v h with Some (s, h1) => Some (SRightS s, h1) | None => None end
   | VAny v =>
       match hydrate root v h with Some (s, h1) => Some (SAny s, h1) | None => None end
+  | VSuspend v =>                                    (* Suspend::hydrate: Some(value).hydrate(..) *)
+      match hydrate root v h with Some (s, h1) => Some (SSusp s, h1) | None => None end
   | VVec vs =>                                       (* view/iterators.rs hydrate for Vec *)
       match seq vs h with
       | None => None
@@ -627,6 +713,11 @@ Fixpoint hydrate (root : dom) (v : view) (h : hstate) {struct v} : option (stree
       match goto_element root h with
       | None => None
       | Some el => Some (SInert el, {| h_cur := el; h_pos := NextChild; h_ops := h_ops h |})
+      end
+  | VRaw n a _ =>                                    (* HtmlElement::hydrate with !E::ESCAPE_CHILDREN: children = None *)
+      match goto_element root h with
+      | None => None
+      | Some el => Some (SElem el a None, {| h_cur := el; h_pos := NextChild; h_ops := h_ops h |})
       end
   end.
 
@@ -666,7 +757,7 @@ Fixpoint bound (s : stree) : list path :=
   | SText n _ | SMarker n | SInert n => [n]
   | SElem n _ ks => n :: match ks with Some l => seq l | None => [] end
   | SSeq l => seq l
-  | SLeftS s | SRightS s | SAny s => bound s
+  | SLeftS s | SRightS s | SAny s | SSusp s => bound s
   | SVec l m | SKeyed _ l m => seq l ++ [m]
   end.
 Fixpoint bound_seq (l : list stree) : list path :=
@@ -703,9 +794,10 @@ Fixpoint dom_csr (v : view) : list dom :=
   | VElem n a ks => [DElem n a (seq ks)]
   | VVoid n a => [DElem n a []]
   | VTuple vs => seq vs
-  | VSome v | VLeft v | VRight v | VAny v => dom_csr v
+  | VSome v | VLeft v | VRight v | VAny v | VSuspend v => dom_csr v
   | VVec vs | VKeyed vs => seq vs ++ [sep]
   | VInert e => [e]
+  | VRaw n a parts => [DElem n a (map (fun p => match p with Some s => DText s | None => sep end) parts)]
   end.
 Fixpoint csr_seq (l : list view) : list dom :=
   match l with [] => [] | v :: l => dom_csr v ++ csr_seq l end.
@@ -790,9 +882,10 @@ Fixpoint wf (in_p : bool) (v : view) {struct v} : bool :=
   | VElem n a ks => elem_ok in_p n false && attrs_ok a && all (in_p || bytes_eqb n s_p) ks
   | VVoid n a => elem_ok in_p n true && attrs_ok a
   | VTuple vs => negb (match vs with [] => true | _ => false end) && all in_p vs
-  | VSome v | VLeft v | VRight v | VAny v => wf in_p v
+  | VSome v | VLeft v | VRight v | VAny v | VSuspend v => wf in_p v
   | VVec vs | VKeyed vs => all in_p vs
   | VInert e => match e with DElem _ _ _ => node_ok in_p e | _ => false end
+  | VRaw _ _ _ => false      (* outside the proved grammar: modelled and compared only (finding F-C05-c) *)
   end.
 Fixpoint wf_seq (b : bool) (l : list view) : bool :=
   match l with [] => true | v :: l => wf b v && wf_seq b l end.
